@@ -132,6 +132,9 @@ func VersionedFromResource(resource fhir.CanonicalResource) (*dtpb.Canonical, er
 func IdentityFromReference(c *dtpb.Canonical) (*resource.CanonicalIdentity, error) {
 	value := c.GetValue()
 	match := canonicalRegExp.FindStringSubmatch(value)
+	if match == nil { // no url part at all, e.g. "" or "#fragment"
+		return nil, resource.ErrMissingCanonicalURL
+	}
 	result := make(map[string]string)
 	for i, name := range canonicalRegExp.SubexpNames() {
 		if i != 0 && name != "" {
